@@ -33,11 +33,23 @@ def load_known():
     return json.load(open(KNOWN))["findings"]
 
 
+class RuleFailed(list):
+    """the (empty) instance list of a rule that could not find its anchors, with the reason"""
+    def __init__(self, why):
+        super().__init__()
+        self.why = why
+
+
 def run_rules(prog, rule_ids, cache):
     out = {}
     for rid in rule_ids:
         if rid not in cache:
-            cache[rid] = RULES[rid]["run"](prog)
+            try:
+                cache[rid] = RULES[rid]["run"](prog)
+            except CheckerError as e:
+                # an anchor of this rule is gone: the rule decides nothing (its floor fails below), but the other
+                # rules of the property are still evaluated, so that a definite violation is reported as one
+                cache[rid] = RuleFailed(str(e))
         out[rid] = cache[rid]
     return out
 
@@ -52,6 +64,8 @@ def check_property(pid, prog, meta, tier, cache, extra_progs=(), t0=None, thorou
     floor_errors = []
     for rid, floor, sel in spec["rules"]:
         res = run_rules(prog, [rid], cache)[rid]
+        if isinstance(res, RuleFailed):
+            floor_errors.append("rule %s for %s could not run: %s" % (rid, pid, res.why))
         if sel:
             res = [r for r in res if sel(r)]
         decided = [r for r in res if r["verdict"] in ("ok", "violation")]
@@ -194,7 +208,18 @@ def main():
                 te, tlines, tviol, tbroken = thorough.run_for(pid, prog)
             else:
                 tlines, tviol = [], 0
-            lines, nv, per_rule = check_property(pid, prog, meta, a.tier, cache, extra, tp, te)
+            try:
+                lines, nv, per_rule = check_property(pid, prog, meta, a.tier, cache, extra, tp, te)
+            except CheckerError as e:
+                if a.prop != "all":
+                    raise
+                # `all` is a development convenience (the registered commands name one property each): a broken
+                # check of one property must not hide the verdicts of the others
+                print("CHECKER-ERROR: %s" % e)
+                print("%s: BROKEN" % pid)
+                if rc == 0:
+                    rc = 2
+                continue
             for ln in lines + tlines:
                 print(ln)
             summ = ", ".join("%s %d/%d" % (r, v["ok"], v["decided"]) for r, v in per_rule.items())
